@@ -249,15 +249,28 @@ class World:
                 g0 = L(n.getElementsByTagName('n0')); g1 = L(n.getElementsByTagName('n1'))
             except RecursionError:
                 tc = g0 = g1 = 'RecursionError'
+            except Exception as e:          # a derived view of the real code raised: an observation, not a harness failure
+                tc = g0 = g1 = 'raised-' + type(e).__name__
+
+            def V(f):
+                try:
+                    return I(f())
+                except Exception as e:
+                    return 'raised-' + type(e).__name__
             out.append('%s:%s:%s:%s:%s,%s,%s,%s:%s:%s:%s' % (
                 head, L(self.kids(n)), I(n.parentNode), I(n.ownerDocument),
-                I(n.firstChild), I(n.lastChild), I(n.previousSibling), I(n.nextSibling), tc, g0, g1))
+                V(lambda: n.firstChild), V(lambda: n.lastChild), V(lambda: n.previousSibling), V(lambda: n.nextSibling), tc, g0, g1))
         sub = ordl[:7]
         rows = []
         for a in sub:
             row = ''
             for b in sub:
-                row += (str(a.compareDocumentPosition(b)) if self._chain_ok(a) and self._chain_ok(b) else 'L') + '.'
+                try:
+                    row += (str(a.compareDocumentPosition(b)) if self._chain_ok(a) and self._chain_ok(b) else 'L') + '.'
+                except RecursionError:
+                    raise
+                except Exception as e:      # observation, not a harness failure
+                    row += 'raised-' + type(e).__name__ + '.'
             rows.append(row)
         return '%s %s # %s' % (err, ' '.join(out), ' '.join(rows))
 
